@@ -596,6 +596,8 @@ def check_C08(ctx):
         oss.rule_oss_samefd(ctx, cfg, F)
         oss.rule_oss_addr(ctx, cfg, F)
         ctx.rule("OSS-ADDR").floor("address_uses[%s]" % cfg, 2, cfg)
+        # the sender connect() hands out is a blocking channel: messages sent before accept() wait for room, they are not refused
+        recv.rule_nb_pair(ctx, cfg, F)
         ctx.rule("OSS-SAMEFD").floor("accept_sites[%s]" % cfg, 1, cfg)
         model = fd.build_model(F)
         fd.rule_fd_path(ctx, cfg, F, model)
@@ -710,7 +712,8 @@ _also("C05", "Also: the backing file is created with exactly the region's length
 _also("C06", "Also: the closed class a member is reported with originates from a zero-length read of its own socket, and an aborted multi-fragment message is not turned into an I/O error that "
              "makes select drop the batch (CLOSED-ORIGIN).")
 _also("C07", "Also: the forwarding closures never unwrap the crossbeam send (RT-FORWARD): a consumer that went away does not panic the router thread.")
-_also("C08", "Also: client and server derive the socket address from the name with the same function and connect() fails only after the OS refused (OSS-ADDR).")
+_also("C08", "Also: client and server derive the socket address from the name with the same function and connect() fails only after the OS refused (OSS-ADDR); no descriptor is handed out in "
+             "non-blocking mode (NB-PAIR, which also follows SOCK_NONBLOCK at creation and F_GETFL-based masks).")
 _also("C09", "Also: Drop of a receiver set closes every member on every turn of its loop, also while unwinding (FD-DROP container clause); received descriptors are close-on-exec (CLOEXEC).")
 _also("C10", "Also: the ipc layer converts the platform error of a polling receive straight into TryRecvError (TRY-CONV), the only conversion that maps would-block to Empty.")
 _also("C11", "Also: a named shared-memory object is unlinked before any other OS call can fail (SHM-UNLINK-FIRST).")
